@@ -3249,6 +3249,12 @@ impl Server {
             }
         }
         
+        // Inside EXEC (connection id 0 stands for "no connection") a blocking pop behaves like its
+        // non-blocking form: there is nobody to block
+        if conn_id == 0 {
+            return Ok(RespFrame::null_array());
+        }
+        
         // No data available, register as blocked
         let deadline = timeout.and_then(|t| Instant::now().checked_add(t));
         self.blocking_manager.register_blocked(db_index, conn_id, keys.clone(), BlockingOp::BLPop, deadline)?;
@@ -3308,6 +3314,11 @@ impl Server {
                     RespFrame::from_bytes(value),
                 ])));
             }
+        }
+        
+        // Inside EXEC a blocking pop behaves like its non-blocking form
+        if conn_id == 0 {
+            return Ok(RespFrame::null_array());
         }
         
         // No data available, register as blocked
